@@ -13,6 +13,7 @@ import (
 
 func init() {
 	vfRegister(&vfProp{
+		noDouble: true,
 		id:       "C18",
 		classes:  c18Classes(),
 		gen:      c18Gen,
